@@ -150,13 +150,22 @@ func ZZH_C01_service_cache() {
 func ZZH_C01_verify_sign() {
 	exec := zzNewExec(1, big.NewInt(0))
 	n := 2 + zz.Choice("ntx", zz.Tier(2, 3))
+	// larger blocks (6, 7 or 11 transactions: the sizes at which work may be split unevenly between
+	// a bounded number of workers): only the last three signatures vary, no local list
+	many := zz.Choice("manyTxs", 2) == 1
+	if many {
+		n = []int{6, 7, 11}[zz.Choice("ntxMany", 3)]
+	}
 	var txs []pb.Transaction
 	var local []bool
 	bad := make([]bool, n)
-	nLocal := zz.Choice("localListLen", n+1) // the local list may be shorter than the block
+	nLocal := 0
+	if !many {
+		nLocal = zz.Choice("localListLen", n+1) // the local list may be shorter than the block
+	}
 	for i := 0; i < n; i++ {
-		bad[i] = zz.Choice("badSig", 2) == 1
-		txs = append(txs, &zzSigTx{BxhTransaction: *zzTransferTx(zzUsers[0], zzUsers[1], uint64(i), i, "1"), bad: bad[i]})
+		bad[i] = (!many || i >= n-3) && zz.Choice("badSig", 2) == 1
+		txs = append(txs, &zzSigTx{BxhTransaction: *zzTransferTx(zzUsers[0], zzUsers[1], uint64(i), i%6, "1"), bad: bad[i]})
 		if i < nLocal {
 			local = append(local, zz.Choice("local", 2) == 1)
 		}
